@@ -6,6 +6,7 @@ import TonicModel.Lemmas.WebClient
 import TonicModel.Lemmas.WebClientBlock
 import TonicModel.Lemmas.WebCaller
 import TonicModel.Lemmas.WebClientHead
+import TonicModel.Props.C04
 /-
 C17 — grpc-web client layer recovers messages and full trailers under any chunking.
 Property theorems only; helper lemmas live in `Lemmas/WebClient` (and `Lemmas/GrpcWeb`).
@@ -94,6 +95,47 @@ theorem C17_caller_sees_status (sp : Bool) (frames : List (Bool × Bytes)) (trai
     rw [h3]; rfl
   simp only [WebCaller.endOf, hobs, hne, Bool.false_eq_true, if_false, h2]
   cases Status.inferGrpcStatus .fixed (some trailers) 200 <;> rfl
+
+
+/-- **… and that status is the INDEPENDENT oracle's reading of the server's trailers.**
+`C17_caller_sees_status` compares two applications of the model's own status reader; composed with
+`C04_read_is_spec` the caller's status is what `Spec.Status.read` — the oracle written from the gRPC
+documents, sharing only the byte-level decoders with the model — reads from the trailers the server
+wrote: the code the spec's table gives, the percent-decoded message, the base64-decoded details; an
+error status (UNKNOWN) when one of them is undecodable; no status iff the server wrote no
+`grpc-status`. -/
+theorem C17_caller_status_is_the_spec_reading (sp : Bool) (frames : List (Bool × Bytes)) (trailers : List Pair)
+    (chunks : List Bytes) (evs : List BodyEv)
+    (hsched : evs.filter notPending = chunks.map BodyEv.data)
+    (hbody : chunks.flatten = framesBytes frames ++ trailersFrame sp trailers)
+    (hframes : ∀ f ∈ frames, f.2.length < 4294967296)
+    (htr : ∀ p ∈ trailers, lowerNameOk p.1 = true ∧ plainValueOk p.2 = true)
+    (hlen : (trailersBlock sp trailers).length < 4294967296) :
+    ∃ t, WebCaller.trailersOf (Fixed.observe evs) = some t ∧
+      match Spec.Status.read trailers, Status.fromHeaderMap .fixed t with
+      | none, none => True
+      | some r, some (.status st) =>
+          (∀ m d, r.message = some m → r.details = some d →
+            st.code.num = r.code ∧ st.message = m ∧ st.details = d) ∧
+          ((r.message = none ∨ r.details = none) → st.code = .unknown)
+      | _, _ => False := by
+  obtain ⟨t, h1, h2, _⟩ := C17_caller_sees_status sp frames trailers chunks evs hsched hbody hframes htr hlen
+  refine ⟨t, h1, ?_⟩
+  rw [h2]
+  have := C04.C04_read_is_spec trailers
+  revert this
+  cases Spec.Status.read trailers with
+  | none =>
+    cases Status.fromHeaderMap .fixed trailers with
+    | none => intro _; trivial
+    | some o => intro h; exact h.elim
+  | some r =>
+    cases Status.fromHeaderMap .fixed trailers with
+    | none => intro h; exact h.elim
+    | some o =>
+      cases o with
+      | status st => intro h; exact ⟨h.2.1, h.2.2⟩
+      | panic => intro h; exact h.elim
 
 /-- … and the messages the caller's `Streaming` cuts out of the delivered data are the
 payloads the server framed (uncompressed frames, as a client without `grpc-encoding` gets). -/
